@@ -35,7 +35,12 @@ Inductive hstep :=
 | HDrop (slot : nat)                                  (* datastore.DeleteDataByName, waited for *)
 | HCrashDrop (slot : nat)                             (* the same, interrupted after the repo metadata was
                                                          saved: the instance is gone, its key-values are not *)
-| HRestart.                                           (* the datastore is closed and opened again *)
+| HRestart                                            (* the datastore is closed and opened again *)
+| HDropHeld (slot : nat)                              (* DeleteDataByName acknowledged; its deletion goroutine is
+                                                         held before it removes the instance from the repo *)
+| HTryNew (slot : nat) (go : option N)                (* create an instance under the name of the one being
+                                                         deleted: refused (None) or accepted with this id *)
+| HRelease.                                           (* the held deletion runs to its end (waited for) *)
 
 (* what a client sees of one instance: its keys listing and, per key ever used, GET key/k *)
 Definition view := (res (list bytes) * list (bytes * res (option bytes)))%type.
@@ -73,7 +78,10 @@ Inductive c06case :=
 (* HTTP-level history; final raw key dump; views of instance slot 1 before/after dropping slot 0;
    view of the re-created slot 0 *)
 | CHist (version : N) (steps : list hstep) (go_keys : list bytes)
-        (b_before b_after : view) (a_new : view).
+        (b_before b_after : view) (a_new : view)
+(* delete an instance and re-create its name while the deletion is still pending, several rounds;
+   afterwards (deletions finished): the views of the instances that must exist, by slot *)
+| CRace (version : N) (steps : list hstep) (views : list (nat * view)).
 
 (* ---- model side ---- *)
 
@@ -185,6 +193,32 @@ Fixpoint model_hist (ver : N) (m : mgr) (slots : list (nat * N)) (l : list hstep
       | Some m' => model_hist ver m' slots r
       | None => None
       end
+    | HDropHeld slot =>
+      (* the effect of the deletion is the same whenever it runs: only that instance's keys go *)
+      match slot_get slots slot with
+      | Some i =>
+        match mgr_step m (MOp i IDeleteInstance) with
+        | Some m' => model_hist ver m' (filter (fun p => negb (Nat.eqb (fst p) slot)) slots) r
+        | None => None
+        end
+      | None => None
+      end
+    | HTryNew slot None =>
+      (* newData draws the instance id before it looks at the name: a refused creation uses one up *)
+      match new_instance_id (S (length (m_taken m))) (m_next m) (m_taken m) with
+      | Some (_, next') => model_hist ver {| m_next := next'; m_taken := m_taken m; m_store := m_store m |} slots r
+      | None => None
+      end
+    | HTryNew slot (Some go_id) =>
+      match mgr_step m MNew with
+      | Some m' =>
+        match m_taken m' with
+        | id :: _ => if id =? go_id then model_hist ver m' ((slot, id) :: slots) r else None
+        | [] => None
+        end
+      | None => None
+      end
+    | HRelease => model_hist ver m slots r
     end
   end.
 
@@ -192,6 +226,16 @@ Definition first_new_id (l : list hstep) : N :=
   match find (fun st => match st with HNew _ _ _ => true | _ => false end) l with
   | Some (HNew _ id _) => id
   | _ => 1
+  end.
+
+(* was a re-creation accepted between HDropHeld and HRelease? *)
+Fixpoint pending_accept (l : list hstep) (pending : bool) : bool :=
+  match l with
+  | [] => false
+  | HDropHeld _ :: r => pending_accept r true
+  | HRelease :: r => pending_accept r false
+  | HTryNew _ (Some _) :: r => pending || pending_accept r pending
+  | _ :: r => pending_accept r pending
   end.
 
 Definition cube2 (g : list N) (f : N -> N -> bytes) (h : N) : N :=
@@ -268,6 +312,12 @@ Definition model_ok (c : c06case) : bool :=
   | CHist ver steps go_keys _ _ _ =>
     match model_hist ver {| m_next := first_new_id steps; m_taken := []; m_store := [] |} [] steps with
     | Some (m, _) => keys_eqb (map fst (m_store m)) go_keys
+    | None => false
+    end
+  | CRace ver steps views =>
+    (* ids are handed out by the counter; a re-creation is refused while the deletion is pending *)
+    match model_hist ver {| m_next := first_new_id steps; m_taken := []; m_store := [] |} [] steps with
+    | Some _ => negb (pending_accept steps false)
     | None => false
     end
   end.
@@ -391,7 +441,17 @@ Fixpoint new_ids (l : list hstep) : list N :=
   match l with
   | [] => []
   | HNew _ id _ :: r => id :: new_ids r
+  | HTryNew _ (Some id) :: r => id :: new_ids r
   | _ :: r => new_ids r
+  end.
+
+(* slots that must exist at the end: created (HNew / accepted HTryNew) and not dropped later *)
+Fixpoint live_slots (l : list hstep) (acc : list nat) : list nat :=
+  match l with
+  | [] => acc
+  | HNew s _ _ :: r | HTryNew s (Some _) :: r => live_slots r (s :: acc)
+  | HDrop s :: r | HCrashDrop s :: r | HDropHeld s :: r => live_slots r (filter (fun x => negb (Nat.eqb x s)) acc)
+  | _ :: r => live_slots r acc
   end.
 
 Fixpoint nodupb (l : list N) : bool :=
@@ -442,6 +502,14 @@ Definition spec_class (c : c06case) : nat :=
     else if negb (nodupb (new_ids steps)) then 8%nat
     else if existsb (fun i => existsb (of_instance i) go_keys) (hist_dropped steps [] []) then 5%nat
     else if negb (view_matches steps 1%nat b_after) then 7%nat
+    else 0%nat
+  | CRace ver steps views =>
+    (* every instance that was created and not deleted exists, with exactly its own data: deleting
+       one instance must not take another one (of the same name) with it; ids are fresh *)
+    if negb (forallb (fun sl => match find (fun p => Nat.eqb (fst p) sl) views with
+                                | Some (_, w) => view_matches steps sl w
+                                | None => false end) (live_slots steps [])) then 4%nat
+    else if negb (nodupb (new_ids steps)) then 8%nat
     else 0%nat
   end.
 
